@@ -90,6 +90,9 @@ def make_dag(rng):
       if any(p.kind == p.VAR_POSITIONAL for p in ps):
         npos_fixed = sum(p.kind in (p.POSITIONAL_ONLY, p.POSITIONAL_OR_KEYWORD) for p in ps)
         cands += [i for i in range(npos_fixed, len(n.pos))]
+        cands += [max(npos_fixed, len(n.pos)), max(npos_fixed, len(n.pos)) + 1]   # free *args slots
+      if any(p.kind == p.VAR_KEYWORD for p in ps):
+        cands += ['extra_unset']                                                 # unset **kwargs name
       if cands:
         k = rng.choice(cands)
         n.tags.setdefault(k, set()).add(rng.choice(vtags.ALL))
@@ -222,12 +225,14 @@ def run_case(rng, acc):
   op = rng.choice(['set_tagged', 'replace', 'replace-deepcopy'])
   v = Sentinel(1) if op != 'replace-deepcopy' else rng.choice([[1, 2], {'k': [3]}, Sentinel(2)])
   work = gen.to_fiddle(root)
+  drop_free_slot_tags(work)
   hits = judge_substitution(work, op, T, v, acc, witness)
   pre_tags = snapshot(cfg)
   others = sum(1 for (_, _, tags) in pre_tags.values() for k, ts in tags.items() if not matches(ts, T))
   acc.case((sketch, op, T.__name__), bool(hits) and others > 0)
   # iteration of a tag selection: value, else default, else NO_VALUE
   it_cfg = gen.to_fiddle(root)
+  drop_free_slot_tags(it_cfg)
   exp = []
   for b in reachable_buildables(it_cfg):
     for k, ts in b.__argument_tags__.items():
@@ -251,6 +256,16 @@ def run_case(rng, acc):
   run_tagged_value_build(rng, acc)
   if len(acc.samples) < 3 and acc.evaluations % 200 < 2:
     acc.sample({'dag': sketch, 'op': op, 'tag': T.__name__})
+
+
+def drop_free_slot_tags(cfg):
+  """Tags on *args indices beyond the current end cannot receive a value (a list cannot be
+  assigned past its end): they are kept for the survival clauses, not for substitution."""
+  for b in reachable_buildables(cfg):
+    start = b.__signature_info__.var_positional_start
+    for k in list(b.__argument_tags__):
+      if isinstance(k, int) and start is not None and k >= start and k not in b.__arguments__:
+        b.__argument_tags__[k] = set()
 
 
 def _ident(x):
